@@ -3,9 +3,9 @@
 
        <e>                                                     a scalar condition over g's own attributes
        exists(m for m in g.members if c) / g.members            and their negations  (EXISTS / NOT EXISTS subquery)
-       v in (m.a for m in g.members if c) / v not in (...)      IN / NOT IN subquery; `not in` adds `m.a IS NOT NULL`
+       v in (m.a for m in g.members if c) / v not in (...)      IN / NOT IN subquery over `... AND m.a IS NOT NULL` (a optional)
        v in g.members.a / v not in g.members.a                  attribute lifting: `a IS NOT NULL` whenever a is optional
-       not (v in (m.a for m in g.members if c))                 the negation flips IN to NOT IN *without* the IS NOT NULL check
+       not (v in (m.a for m in g.members if c))                 the negation flips IN to NOT IN (same subquery)
        <e> mentioning count(m for m in g.members if c)          scalar subquery SELECT COUNT(DISTINCT m.id)
 
    Column ids: 0..8 the member m (a row of P), 10..14 g (a row of G), 30 the value of the atom's count-subquery.  The
@@ -43,7 +43,8 @@ Variable d : dname.
 
 Definition tr_conds (c : option expr) : option (list qx) := match c with None => Some [] | Some c => tr_filter d c end.
 
-(* construct_sql_ast(is_not_null_checks=not_in) for a nullable expression monad; AttrSetMonad._subselect for an optional attribute *)
+(* construct_sql_ast(is_not_null_checks=True) for a nullable expression monad (QuerySetMonad.contains; before repo commit 2e4b5c8 only
+   for `not in`); AttrSetMonad._subselect for an optional attribute *)
 Definition not_null_check (a : attr) (need : bool) : list qx :=
   if need && a_null a then [QUn QIsNotNull (QCol (a_id a))] else [].
 
@@ -56,7 +57,7 @@ Definition tr_atom (x : atom) : option cx :=
       | Some q, Some (TV t) =>
           if vty_eqb t (a_ty a) then
             match s with
-            | SGen c => option_map (fun cs => XIn neg q (QCol (a_id a)) (sub_join, cs ++ not_null_check a (neg && negb over))) (tr_conds c)
+            | SGen c => option_map (fun cs => XIn neg q (QCol (a_id a)) (sub_join, cs ++ not_null_check a true)) (tr_conds c)
             | SAttr => Some (XIn neg q (QCol (a_id a)) (sub_join, not_null_check a true))
             end
           else None
